@@ -199,3 +199,263 @@ theorem resolve_dropFlags (T : Table) (names : List String) (D args file : Layer
   rw [flagLayer_dropFlags T names f.ms h args, flagDefault_dropFlags T names f.ms h]
 
 end Config
+
+/-! ## the genesis text parser reads `a ++ suffix` as it reads `a` -/
+namespace GenesisFile
+
+/-- what the parser reads does not depend on what follows the part of the input it needed -/
+def Stable {α : Type} (p : Parser α) : Prop :=
+  ∀ (a : Bytes) (x : α) (r s : Bytes), p a = some (x, r) → p (a ++ s) = some (x, r ++ s)
+
+theorem Stable.pure {α : Type} (x : α) : Stable (Parser.pure x) := by
+  intro a y r s h
+  simp only [Parser.pure, Option.some.injEq, Prod.mk.injEq] at h ⊢
+  exact ⟨h.1, by rw [h.2]⟩
+
+theorem Stable.fail {α : Type} : Stable (Parser.fail : Parser α) := by
+  intro a y r s h; simp [Parser.fail] at h
+
+theorem Stable.bind {α β : Type} {p : Parser α} {f : α → Parser β} (hp : Stable p) (hf : ∀ x, Stable (f x)) :
+    Stable (p.bind f) := by
+  intro a y r s h
+  unfold Parser.bind at h ⊢
+  cases hpa : p a with
+  | none => rw [hpa] at h; cases h
+  | some xr =>
+    obtain ⟨x, r'⟩ := xr
+    rw [hpa] at h
+    rw [hp a x r' s hpa]
+    exact hf x r' y r s h
+
+theorem Stable.ite {α : Type} {c : Prop} [Decidable c] {p q : Parser α} (hp : Stable p) (hq : Stable q) :
+    Stable (if c then p else q) := by
+  split <;> assumption
+
+theorem expect_append : ∀ (l a r s : Bytes), expect l a = some r → expect l (a ++ s) = some (r ++ s)
+  | [], a, r, s, h => by simp only [expect, Option.some.injEq] at h ⊢; rw [h]
+  | _ :: _, [], _, _, h => by simp [expect] at h
+  | l :: ls, b :: bs, r, s, h => by
+    simp only [expect, List.cons_append] at h ⊢
+    split at h
+    · next hlb => simp only [hlb, if_true]; exact expect_append ls bs r s h
+    · cases h
+
+theorem stable_pExpect (lit : Bytes) : Stable (pExpect lit) := by
+  intro a x r s h
+  unfold pExpect at h ⊢
+  cases he : expect lit a with
+  | none => rw [he] at h; cases h
+  | some r' =>
+    rw [he] at h
+    simp only [Option.map_some, Option.some.injEq, Prod.mk.injEq] at h
+    rw [expect_append lit a r' s he]
+    simp [h.2]
+
+theorem stable_pByte : Stable pByte := by
+  intro a x r s h
+  cases a with
+  | nil => cases h
+  | cons b bs =>
+    simp only [pByte, Option.some.injEq, Prod.mk.injEq] at h
+    simp [pByte, h.1, h.2]
+
+theorem stable_pFixed (w : Nat) : Stable (pFixed w) := by
+  intro a x r s h
+  unfold pFixed at h ⊢
+  simp only at h ⊢
+  split at h
+  · next hc =>
+    simp only [Bool.and_eq_true, decide_eq_true_eq] at hc
+    have hlen : w ≤ a.length := by
+      have := hc.1; rw [List.length_take] at this; omega
+    have ht : (a ++ s).take w = a.take w := List.take_append_of_le_length hlen
+    have hd : (a ++ s).drop w = a.drop w ++ s := List.drop_append_of_le_length hlen
+    simp only [Option.some.injEq, Prod.mk.injEq] at h
+    rw [ht, hd]
+    simp [hc.1, hc.2, h.1, h.2]
+  · cases h
+
+theorem takeWhile_dropWhile_append (p : UInt8 → Bool) :
+    ∀ (a s : Bytes), a.dropWhile p ≠ [] →
+      (a ++ s).takeWhile p = a.takeWhile p ∧ (a ++ s).dropWhile p = a.dropWhile p ++ s
+  | [], _, h => by simp at h
+  | b :: bs, s, h => by
+    by_cases hb : p b = true
+    · have h' : bs.dropWhile p ≠ [] := by simpa [List.dropWhile, hb] using h
+      have ih := takeWhile_dropWhile_append p bs s h'
+      simp [List.takeWhile, List.dropWhile, hb, ih.1, ih.2]
+    · simp [List.takeWhile, List.dropWhile, hb]
+
+theorem stable_pWhile (p : UInt8 → Bool) : Stable (pWhile p) := by
+  intro a x r s h
+  unfold pWhile at h ⊢
+  split at h
+  · cases h
+  · next hne =>
+    have hne' : a.dropWhile p ≠ [] := by simpa using hne
+    have hts := takeWhile_dropWhile_append p a s hne'
+    simp only [Option.some.injEq, Prod.mk.injEq] at h
+    rw [hts.1, hts.2]
+    have hemp : ((a.dropWhile p ++ s).isEmpty) = false := by
+      cases hd : a.dropWhile p with
+      | nil => exact absurd hd hne'
+      | cons _ _ => rfl
+    rw [hemp]
+    simp only [Bool.false_eq_true, if_false]
+    rw [h.1, h.2]
+
+theorem stable_unescapeOne : Stable unescapeOne := by
+  intro a x r s h
+  cases a with
+  | nil => cases h
+  | cons e rest =>
+    simp only [unescapeOne, List.cons_append] at h ⊢
+    split at h
+    · next he =>
+      simp only [he, if_true]
+      match rest, h with
+      | h1 :: h2 :: h3 :: h4 :: rest', h =>
+        simp only [List.cons_append] at h ⊢
+        cases hv1 : hexVal h1 <;> cases hv2 : hexVal h2 <;> cases hv3 : hexVal h3 <;> cases hv4 : hexVal h4 <;>
+          simp only [hv1, hv2, hv3, hv4] at h ⊢ <;> first | (cases h; done) | skip
+        simp only [Option.some.injEq, Prod.mk.injEq] at h
+        simp [h.1, h.2]
+      | [], h => cases h
+      | [_], h => cases h
+      | [_, _], h => cases h
+      | [_, _, _], h => cases h
+    · next he =>
+      simp only [he, if_false]
+      repeat' split at h
+      all_goals first
+        | (cases h; done)
+        | (simp only [Option.some.injEq, Prod.mk.injEq] at h
+           simp_all)
+
+theorem parseStringBody_append :
+    ∀ (f : Nat) (a acc v r s : Bytes), parseStringBody f a acc = some (v, r) →
+      ∀ f', f ≤ f' → parseStringBody f' (a ++ s) acc = some (v, r ++ s)
+  | 0, _, _, _, _, _, h, _, _ => by simp [parseStringBody] at h
+  | _ + 1, [], _, _, _, _, h, _, _ => by simp [parseStringBody] at h
+  | f + 1, b :: rest, acc, v, r, s, h, f', hf => by
+    obtain ⟨g, rfl⟩ : ∃ g, f' = g + 1 := ⟨f' - 1, by omega⟩
+    have hg : f ≤ g := by omega
+    simp only [parseStringBody, List.cons_append] at h ⊢
+    split at h
+    · next hq =>
+      simp only [hq, if_true]
+      simp only [Option.some.injEq, Prod.mk.injEq] at h
+      simp [h.1, h.2]
+    · next hq =>
+      simp only [hq, if_false]
+      split at h
+      · next hbs =>
+        simp only [hbs, if_true]
+        cases hu : unescapeOne rest with
+        | none => rw [hu] at h; cases h
+        | some vr =>
+          obtain ⟨v', rest'⟩ := vr
+          rw [hu] at h
+          rw [stable_unescapeOne rest v' rest' s hu]
+          exact parseStringBody_append f rest' _ v r s h g hg
+      · next hbs =>
+        simp only [hbs, if_false]
+        split at h
+        · cases h
+        · next hc =>
+          simp only [hc, if_false]
+          exact parseStringBody_append f rest _ v r s h g hg
+
+theorem stable_pString : Stable pString := by
+  intro a x r s h
+  unfold pString at h ⊢
+  exact parseStringBody_append _ a [] x r s h _ (by rw [List.length_append]; omega)
+
+theorem stable_pFrac : Stable pFrac := by
+  intro a x r s h
+  cases a with
+  | nil => cases h
+  | cons b rest =>
+    simp only [pFrac, List.cons_append] at h ⊢
+    split at h
+    · next hb =>
+      simp only [hb, if_true]
+      have : Stable ((pWhile isDigitB).bind fun ds =>
+          if ds.isEmpty || ds.length > 9 then Parser.fail
+          else Parser.pure (natOfDigits (ds ++ List.replicate (9 - ds.length) 48))) :=
+        Stable.bind (stable_pWhile _) fun ds => by
+          split
+          · exact Stable.fail
+          · exact Stable.pure _
+      exact this rest x r s h
+    · next hb =>
+      simp only [hb, if_false]
+      simp only [Option.some.injEq, Prod.mk.injEq] at h
+      simp [h.1, ← h.2]
+
+theorem stable_pZone : Stable pZone := by
+  unfold pZone
+  refine Stable.bind stable_pByte fun b => ?_
+  split
+  · exact Stable.pure _
+  · split
+    · refine Stable.bind (stable_pFixed 2) fun zh => Stable.bind (stable_pExpect _) fun _ =>
+        Stable.bind (stable_pFixed 2) fun zmn => ?_
+      split
+      · exact Stable.fail
+      · exact Stable.pure _
+    · exact Stable.fail
+
+theorem stable_pTime : Stable pTime := by
+  unfold pTime
+  refine Stable.bind (stable_pFixed 4) fun y => Stable.bind (stable_pExpect _) fun _ =>
+    Stable.bind (stable_pFixed 2) fun mo => Stable.bind (stable_pExpect _) fun _ =>
+    Stable.bind (stable_pFixed 2) fun d => Stable.bind (stable_pExpect _) fun _ =>
+    Stable.bind (stable_pFixed 2) fun h => Stable.bind (stable_pExpect _) fun _ =>
+    Stable.bind (stable_pFixed 2) fun mi => Stable.bind (stable_pExpect _) fun _ =>
+    Stable.bind (stable_pFixed 2) fun s => Stable.bind stable_pFrac fun ns =>
+    Stable.bind stable_pZone fun off => Stable.bind (stable_pExpect _) fun _ => ?_
+  split
+  · exact Stable.fail
+  · exact Stable.pure _
+
+theorem stable_pNat : Stable pNat := by
+  unfold pNat
+  refine Stable.bind (stable_pWhile _) fun ds => ?_
+  split
+  · exact Stable.fail
+  · exact Stable.pure _
+
+theorem stable_pProposer : Stable pProposer := by
+  intro a x r s h
+  cases a with
+  | nil => cases h
+  | cons b rest =>
+    simp only [pProposer, List.cons_append] at h ⊢
+    split at h
+    · next hb =>
+      simp only [hb, if_true]
+      have : Stable ((pWhile (· ≠ ch '"')).bind fun body => pByte.bind fun _ =>
+          match unbase64 body with
+          | some v => Parser.pure (some v)
+          | none => Parser.fail) :=
+        Stable.bind (stable_pWhile _) fun body => Stable.bind stable_pByte fun _ => by
+          split
+          · exact Stable.pure _
+          · exact Stable.fail
+      exact this rest x r s h
+    · next hb =>
+      simp only [hb, if_false]
+      have : Stable ((pExpect (str "null")).bind fun _ => (Parser.pure none : Parser (Option Bytes))) :=
+        Stable.bind (stable_pExpect _) fun _ => Stable.pure _
+      exact this (b :: rest) x r s h
+
+theorem stable_pDocument : Stable pDocument := by
+  unfold pDocument
+  exact Stable.bind (stable_pExpect _) fun _ => Stable.bind stable_pString fun _ =>
+    Stable.bind (stable_pExpect _) fun _ => Stable.bind stable_pTime fun _ =>
+    Stable.bind (stable_pExpect _) fun _ => Stable.bind stable_pNat fun _ =>
+    Stable.bind (stable_pExpect _) fun _ => Stable.bind stable_pProposer fun _ =>
+    Stable.bind (stable_pExpect _) fun _ => Stable.pure _
+
+end GenesisFile
